@@ -51,7 +51,7 @@ CASE_TIMEOUT = {"quick": 20, "thorough": 60}
 OPS_REAL = {"arith", "math", "cond", "index", "tensor", "compound", "deriv", "pow", "abs", "var", "sign", "math2",
             "geotensor"}
 REAL = Profile(ops=OPS_REAL, leaves={"coef", "const", "lit", "x", "geo", "zero", "eye"}, max_rank=2, elements="all",
-               manifolds=True, args=((0, "any"), (1, "any")))
+               manifolds=True, args=((0, "any"), (1, "any")), weights={"JK": 5})
 FACET = Profile(ops=OPS_REAL | {"derivn"}, leaves={"coef", "const", "lit", "x", "geo", "zero", "eye", "n"}, max_rank=2,
                 elements="all", manifolds=True, facet=True, args=((0, "any"), (1, "any")))
 INTERIOR = Profile(ops=OPS_REAL, leaves={"coef", "const", "lit", "x", "geo", "zero", "eye", "n"}, max_rank=2,
@@ -112,7 +112,7 @@ def cases(draw, tier):
         "do_apply_function_pullbacks": draw(st.booleans()),
         "do_apply_integral_scaling": draw(st.booleans()),
         "do_apply_geometry_lowering": geo,
-        "do_cancel_jacobian_products": geo and draw(st.booleans()),
+        "do_cancel_jacobian_products": geo and draw(st.integers(0, 2)) > 0,
         "do_remove_component_tensors": draw(st.booleans()),
         "do_apply_default_restrictions": draw(st.integers(0, 3)) > 0,
         "do_apply_restrictions": draw(st.integers(0, 3)) > 0 or focus,
